@@ -31,6 +31,8 @@ Operations (JSON objects):
     {"fn": "parse_all", "arg": [...], "want": [{...}, ...]}
     {"fn": "save", "fmt": 1, "division": 96, "tracks": [[event, ...], ...], "want": "hex of the file"}
     {"fn": "load", "data": "hex", "want": [type, ticks_per_beat, [[message, ...], ...]]}
+    {"fn": "timing", "data": "hex", "want": "__sequential__"}    iteration times + length (warm mode: compared with
+                                                                  the child's own sequential run of the same operation)
     {"fn": "meta_bytes", "type": t, "attrs": {...}, "want": [..]}
     {"fn": "meta_from_bytes", "arg": [...], "want": {...}}
 A result that is an exception is reported as {"raised": "ClassName: text"}.
@@ -96,6 +98,11 @@ def do(mido, op):
             buf = io.BytesIO()
             mid.save(file=buf)
             return buf.getvalue().hex()
+        if fn == 'timing':
+            # iteration times and length of a file (seconds): compared with this child's own sequential run
+            import io
+            mid = mido.MidiFile(file=io.BytesIO(bytes.fromhex(op['data'])))
+            return [[m.type, repr(m.time)] for m in mid] + [['length', repr(mid.length)]]
         if fn == 'load':
             import io
             mid = mido.MidiFile(file=io.BytesIO(bytes.fromhex(op['data'])))
@@ -219,10 +226,13 @@ def main():
             mods = [importlib.import_module(m) for m in modules]
             warm['mido'], warm['codes'] = mido, lines.code_objects(mods)
             if not fresh:
-                # warm mode: one import, every operation done once before the schedules start
+                # warm mode: one import, every operation done once before the schedules start; an operation whose
+                # expected value is "__sequential__" is compared with what this sequential run gave
                 for j in jobs:
                     for op in j:
-                        do(mido, op)
+                        r0 = do(mido, op)
+                        if op.get('want') == '__sequential__':
+                            op['want'] = r0
         mido, codes = warm['mido'], warm['codes']
         strat = sched.Preempt(points)
         s = sched.Scheduler(codes, strat, max_steps=20000, candidate_files=suffixes)
